@@ -222,6 +222,8 @@ pub fn seeded_runs(ctx: &mut Ctx, prop: &str, oracles: u32, clauses: u32, quick_
             }
         }
         seeded_group(ctx, prop, oracles, clauses, 3, vec![3, 20, 200], &specs, 400_000, 30.0);
+        let specs16m = vec![SeedSpec { file: "val", boundary: 16 * 1024 * 1024, eps: 16, free_slots: 2, val_pad: 0 }, SeedSpec { file: "val", boundary: 16 * 1024 * 1024, eps: 0, free_slots: 0, val_pad: 0 }];
+        seeded_group(ctx, prop, oracles, clauses, 2, vec![3, 200], &specs16m, 100_000, 120.0);
     } else {
         for (file, eps, free_slots) in [("val", 16u64, 0usize), ("val", 0, 2), ("key", 16, 0), ("key", 0, 2), ("both", 16, 2)] {
             specs.push(SeedSpec { file, boundary: 16 * 1024, eps, free_slots, val_pad: 0 });
@@ -233,10 +235,26 @@ pub fn seeded_runs(ctx: &mut Ctx, prop: &str, oracles: u32, clauses: u32, quick_
             seeded_group(ctx, prop, oracles, clauses, 2, vec![3, 200], &specs128, 30_000, 8.0);
         }
         if !quick_only {
+            // value offsets that need four bytes on disk (value file beyond 16 MiB): the chain head's record is rewritten
+            let specs16m = vec![SeedSpec { file: "val", boundary: 16 * 1024 * 1024, eps: 16, free_slots: 2, val_pad: 0 }];
+            seeded_group(ctx, prop, oracles, clauses, 2, vec![3, 200], &specs16m, 4_000, 8.0);
+        }
+        if !quick_only {
             let specs3 = vec![SeedSpec { file: "val", boundary: 16 * 1024, eps: 16, free_slots: 0 , val_pad: 0}, SeedSpec { file: "key", boundary: 16 * 1024, eps: 16, free_slots: 0 , val_pad: 0}];
             seeded_group(ctx, prop, oracles, clauses, 3, vec![3, 200], &specs3, 60_000, 3.0);
         }
     }
+}
+
+#[allow(clippy::too_many_arguments)]
+pub fn seeded_group_ro(ctx: &mut Ctx, prop: &str, oracles: u32, ro_mode: u8, nkeys: usize, vals: Vec<u32>, specs: &[SeedSpec], cap: usize, secs: f64) {
+    RO_MODE.with(|m| m.set(ro_mode));
+    seeded_group(ctx, prop, oracles, 0, nkeys, vals, specs, cap, secs);
+    RO_MODE.with(|m| m.set(0));
+}
+
+thread_local! {
+    static RO_MODE: std::cell::Cell<u8> = std::cell::Cell::new(0);
 }
 
 #[allow(clippy::too_many_arguments)]
@@ -249,6 +267,7 @@ pub fn seeded_group(ctx: &mut Ctx, prop: &str, oracles: u32, clauses: u32, nkeys
     let mut cfg = make_cfg(prop, kt, n, &alpha, seed);
     cfg.oracles = oracles;
     cfg.clauses = clauses;
+    cfg.ro_mode = RO_MODE.with(|m| m.get());
     let filler_bucket = 6u64;
     // all seeds share the filler keys' bucket; every seed gets its own closure (its extras differ)
     let mut group_states = 0usize;
@@ -335,6 +354,9 @@ pub fn c08(tier: &str, seed: u64) -> i32 {
             let starts: Vec<Start> = empty_start(&mut ctx, &cfg).into_iter().collect();
             run_closure(&mut ctx, &format!("{} from the empty map [{}]", a.label, kt.name()), &cfg, starts, 300_000, 90.0);
         }
+    }
+    if ctx.run.violations.is_empty() {
+        crate::props_a::non_utf8_closure(&mut ctx, "C08", o, clauses);
     }
     if ctx.run.violations.is_empty() {
         seeded_runs(&mut ctx, "C08", o, clauses, false);
